@@ -7,7 +7,11 @@ import GoomVerif.Gen.JmpIfaceArm64
 import GoomVerif.Model.X86Mini
 import GoomVerif.Model.A64Mini
 /-! Driver for C15: `emit <kind> <from> <to>` → `bytes=<hex> run=<symbolic result>`.
-    Memory is the fixed injective marker `mem64 a = ~~~a`, so "jumped through [a]" is visible in RIP. -/
+    Memory is the fixed injective marker `mem64 a = ~~~a`, so "jumped through [a]" is visible in RIP.
+    The same `emit` lines are used for the call-site lane: the check turns what the real call sites left in memory
+    (`from` = where the bytes sit, `to` = the destination computed independently) into `emit` lines.
+    `c15.cap <arch> <hexbytes>` → `patched=<bool>` | `panic` (Go indexes `origin[0]`: an empty slice panics; the generated
+    definition is totalised with `getD`, the driver restores the bounds check here). -/
 namespace Drv.C15
 
 def x86Run (bs : List (BitVec 8)) (from_ : BitVec 64) : String :=
@@ -45,12 +49,26 @@ def handle (toks : List String) : Option String :=
       | "amd64.relative" => some s!"relative={Gen.Amd64.relative from_ to}"
       | "arm64.entry" => let bs := Gen.Arm64.jmpToFunctionValue from_ to; some s!"bytes={hexBytes bs} {a64Run bs from_}"
       | "arm64.stub" => let bs := Gen.IfaceArm64.jmpWithRdx to; some s!"bytes={hexBytes bs} {a64Run bs from_}"
-      | "arm64.stubctx" => let bs := Gen.IfaceArm64.jmpWithRdxAndCtx to from_ from_; some s!"bytes={hexBytes bs} {a64Run bs from_}"
+      | "arm64.stubctx" => let bs := Gen.IfaceArm64.jmpWithRdxAndCtx to from_ (~~~from_); some s!"bytes={hexBytes bs} {a64Run bs from_}"
+      | "arm64.origin" =>
+        match Gen.Arm64.jmpToOriginFunctionValue from_ to with
+        | .ok bs => some s!"bytes={hexBytes bs} {a64Run bs from_}"
+        | .error _ => some "panic"
       | "i386.entry" =>
         let bs := Gen.I386.jmpToFunctionValue (BitVec.ofNat 32 fn) (BitVec.ofNat 32 tn)
         some s!"bytes={hexBytes bs} {i386Run bs}"
       | _ => some "bad-op"
     | _, _ => some "bad-op"
+  | ["c15.cap", arch, hx] =>
+    match parseBytes hx with
+    | some bs =>
+      if bs.isEmpty then some "panic"
+      else match arch with
+        | "amd64" => some s!"patched={Gen.Amd64.checkAlreadyPatch bs}"
+        | "i386" => some s!"patched={Gen.I386.checkAlreadyPatch bs}"
+        | _ => some "bad-op"
+    | none => some "bad-op"
+  | "c15.cap" :: _ => some "bad-op"
   | ["conc", _, _, _] => some "conc ok"      -- concurrent callers of a pure emitter: every result equals the sequential one
   | "emit" :: _ => some "bad-op"
   | _ => none
